@@ -93,7 +93,15 @@ type CDurGroup struct {
 	Dur   int   `json:"dur"`
 }
 
+// CSoft: a capacity that is an objective term instead of a constraint (objectives.capacities).
+type CSoft struct {
+	Res    string `json:"res"`
+	Factor int    `json:"factor"`
+	Offset int    `json:"offset"`
+}
+
 type COptions struct {
+	Soft      []CSoft        `json:"soft,omitempty"`    // soft capacities (the capacity constraint is disabled with them)
 	Disable   []string       `json:"disable,omitempty"` // names of constraints.disable.* flags that are set
 	Factors   map[string]int `json:"factors"`           // objective factors (integers)
 	DisableIS bool           `json:"disable_initial,omitempty"`
@@ -155,6 +163,7 @@ type Profile struct {
 	Trap                                                                            bool // removal trap (see Case.Trap)
 	ForceWindows                                                                    bool // windows, wait limits and a non-metric matrix always on
 	ForceUnordered                                                                  bool // at least one multi-stop unit with several allowed orders
+	SoftCap                                                                         bool // capacities as objective terms (constraint off)
 }
 
 func fullProfile(maxStops, maxVeh int) Profile {
@@ -792,6 +801,34 @@ func genCase(rng *rand.Rand, p Profile) *Case {
 		c.Opt.Disable = []string{all[rng.Intn(len(all))]}
 		c.feature("disable:" + c.Opt.Disable[0])
 	}
+	// soft capacities: the capacity constraint off, the excess over the capacity an objective term (per-stop objective data)
+	if on(p.Disable, 5) || p.SoftCap {
+		names := map[string]bool{}
+		for _, st := range c.Stops {
+			for k := range st.Qty {
+				names[k] = true
+			}
+		}
+		for _, ve := range c.Vehicles {
+			for k := range ve.Cap {
+				names[k] = true
+			}
+		}
+		var ns []string
+		for k := range names {
+			ns = append(ns, k)
+		}
+		sort.Strings(ns)
+		if len(ns) > 0 {
+			c.Opt.Disable = []string{"capacity"}
+			for _, k := range ns {
+				if len(c.Opt.Soft) == 0 || rng.Intn(2) == 0 {
+					c.Opt.Soft = append(c.Opt.Soft, CSoft{Res: k, Factor: 1 + rng.Intn(3), Offset: []int{0, 0, 100, 1000}[rng.Intn(4)]})
+				}
+			}
+			c.feature("soft-capacity")
+		}
+	}
 	// loose groups: two or three whole plan units that must be planned together but not on one vehicle
 	if p.Loose && rng.Intn(3) == 0 && len(c.Alts) == 0 {
 		initial := map[int]bool{}
@@ -1290,6 +1327,11 @@ func (c *Case) options() factory.Options {
 	o.Objectives.LateArrivalPenalty = f("late_arrival_penalty")
 	o.Objectives.TravelDuration = f("travel_duration")
 	o.Objectives.StopBalance = f("stop_balance")
+	var soft []string
+	for _, sc := range c.Opt.Soft {
+		soft = append(soft, fmt.Sprintf("name=%s;factor=%d;offset=%d", sc.Res, sc.Factor, sc.Offset))
+	}
+	o.Objectives.Capacities = strings.Join(soft, ";")
 	o.Validate.Disable.StartTime = true
 	for _, d := range c.Opt.Disable {
 		switch d {
